@@ -50,7 +50,10 @@ def exec_RD(t):
         x = mkarr(codes, r, c, s, n, f, overflow=o)
         before = codes_of(x)
         kw = {}
-        if axis == 'N' and fn not in ('transpose', 'diagonal', 'trace'):
+        if fn == 'transpose' and axis in ('id', 'sw'):
+            nd = 2 if r else 1
+            kw['axes'] = tuple(range(nd)) if axis == 'id' else tuple(reversed(range(nd)))
+        elif axis == 'N' and fn not in ('transpose', 'diagonal', 'trace'):
             kw['axis'] = None             # passed explicitly (for sort this is not the default)
         elif axis != 'n' and fn not in ('transpose', 'diagonal', 'trace'):
             kw['axis'] = int(axis)
@@ -61,7 +64,7 @@ def exec_RD(t):
                 x.sort(**kw)
                 z = x
             elif fn == 'transpose':
-                z = x.transpose()
+                z = x.transpose(**kw)
             else:
                 z = getattr(x, fn)(**kw)
         if fn != 'sort' and codes_of(x) != before:
@@ -98,6 +101,10 @@ def exec_RDC(t):
         x = mkarr(codes, 0, len(codes), s, n, f)
         amin = None if lo == '-' else int(lo) / 2.0 ** f
         amax = None if hi == '-' else int(hi) / 2.0 ** f
+        if (len(codes) + n + sum(c % 3 for c in codes)) % 4 == 0:
+            # the bounds as fixed-point objects holding the same values (in a format of their own)
+            amin = None if amin is None else Fxp(int(lo), True, n + 2, f, raw=True)
+            amax = None if amax is None else Fxp(int(hi), True, n + 3, f, raw=True)
         z = np.clip(x, amin, amax) if route == 'numpy' else x.clip(amin, amax)
     except Exception as e:
         return [exc_token(e)]
@@ -163,7 +170,7 @@ def generate(tier, rng):
             continue
         axis = rng.choice(['n', 'N', '0', '-1'] + (['1', '-2'] if two else []))
         if fn in ('transpose', 'diagonal', 'trace'):
-            axis = 'n'
+            axis = rng.choice(['n', 'id', 'sw']) if fn == 'transpose' else 'n'
         route = rng.choice(['numpy', 'method'])
         if axis == 'N' and fn == 'sort':
             route = 'numpy'               # the in-place method cannot flatten
